@@ -29,7 +29,8 @@ def registry():
             if isinstance(obj, type):
                 reg[name] = obj
     for name in ("TableCost", "TableSaving", "TableChangeScore", "TableLocalAnomalyScore", "L1Cost", "TrendPenalisedL2Cost", "MemoisingAbsCost", "WeightedCUSUM",
-                 "FixedChangeDetector", "IndexLabelChangeDetector", "FunctionChangeScore", "FunctionLocalAnomalyScore"):
+                 "FixedChangeDetector", "IndexLabelChangeDetector", "FunctionChangeScore", "FunctionLocalAnomalyScore",
+                 "SecondMomentChangeScore", "SecondMomentLocalScore", "DirectLocalMeanScore", "ProfileChangeScore"):
         reg[name] = getattr(U, name)
     return reg
 
@@ -97,7 +98,8 @@ def scorer_min_size(spec, p):
     if spec is None:
         return 1
     cls = spec["cls"]
-    if cls in ("L2Cost", "CUSUM", "L2Saving", "L1Cost", "TrendPenalisedL2Cost", "MemoisingAbsCost", "WeightedCUSUM"):
+    if cls in ("L2Cost", "CUSUM", "L2Saving", "L1Cost", "TrendPenalisedL2Cost", "MemoisingAbsCost", "WeightedCUSUM",
+               "SecondMomentChangeScore", "SecondMomentLocalScore"):
         return 1
     if cls == "GaussianVarCost":
         return 2
@@ -109,6 +111,8 @@ def scorer_min_size(spec, p):
         return scorer_min_size(spec["baseline_cost"], p)
     if cls.startswith("Table") or cls.startswith("Function"):
         return spec.get("msize", 1)
+    if cls == "ProfileChangeScore":
+        return 1
     raise ValueError(cls)
 
 
@@ -125,12 +129,14 @@ def score_magnitude(spec, X, length, default="CUSUM"):
     while isinstance(inner, dict) and ("cost" in inner or "baseline_cost" in inner):
         inner = inner.get("cost", inner.get("baseline_cost"))
     cls = default if inner is None else inner["cls"]
-    if cls.startswith(("Gaussian", "Table", "Function")):
+    if cls.startswith(("Gaussian", "Table", "Function", "Profile")):
         return 1.0 + (length if cls.startswith("Gaussian") else 0.0)
     if cls in ("CUSUM", "WeightedCUSUM"):
         return p * (length ** 0.5) * M * (max(abs(float(w)) for w in inner.get("weights", [1.0])) if isinstance(inner, dict) else 1.0)
     if cls == "L1Cost":
         return p * length * M * float(inner.get("scale", 1.0))
+    if cls.startswith("SecondMoment"):
+        return p * (length ** 0.5) * M * M
     return p * length * M * M  # squared-error costs
 
 
